@@ -535,10 +535,15 @@ class RegexParser:
                 raise RegExpError("Unterminated unicode escape")
             if not hex_digits:
                 raise RegExpError("Empty unicode escape")
-            try:
-                return Char(chr(int(hex_digits, 16)))
-            except ValueError:
+            # Hex digits only (int() also takes a sign, blanks and underscores)
+            # and no more than U+10FFFF (chr() raises beyond it)
+            for ch in hex_digits:
+                if ch not in "0123456789abcdefABCDEF":
+                    raise RegExpError(f"Invalid unicode escape: {hex_digits}")
+            significant = hex_digits.lstrip("0")
+            if len(significant) > 6 or int(significant or "0", 16) > 0x10FFFF:
                 raise RegExpError(f"Invalid unicode escape: {hex_digits}")
+            return Char(chr(int(significant or "0", 16)))
         else:
             # \uXXXX form
             hex_digits = ""
